@@ -106,7 +106,7 @@ var capBits = map[string]int{"String": 1, "GoString": 2, "Error": 4, "Height": 8
 
 func payloadOf(d M) *payload {
 	return &payload{
-		Strv: opStrDef(d, "strv", ""), Gov: opStrDef(d, "gov", ""), Errv: opStrDef(d, "errv", ""),
+		Strv: itemStr(d, "strv"), Gov: itemStr(d, "gov"), Errv: itemStr(d, "errv"),
 		H: opIntDef(d, "h", 0), W: opIntDef(d, "w", 0), Tag: "t",
 	}
 }
@@ -124,11 +124,22 @@ func capMask(d M) int {
 }
 
 // mkItem builds the concrete Go value for a descriptor and augments the descriptor.
+// bytesMode: every item string of the scenario is an arbitrary byte string in
+// Latin-1 transport (one rune per byte); used by the CSV family.
+var bytesMode bool
+
+func itemStr(d M, k string) string {
+	if bytesMode {
+		return unlatin1(opStrDef(d, k, ""))
+	}
+	return opStrDef(d, k, "")
+}
+
 func (w *world) mkItem(d M) interface{} {
 	var x interface{}
 	switch opStr(d, "k") {
 	case "str":
-		x = opStr(d, "s")
+		x = itemStr(d, "s")
 	case "rune":
 		r, _ := utf8.DecodeRuneInString(opStr(d, "s"))
 		x = r
@@ -201,8 +212,26 @@ func otherCaps(which string) (caps []interface{}, strv, gov, errv string) {
 	return caps, "", "", ""
 }
 
+func jsonOfString(s string) string {
+	b, err := json.Marshal(s)
+	if err != nil {
+		return "!ERR"
+	}
+	return canonJSON(b)
+}
+
 func augmentItem(d M, x interface{}) {
 	tx := M{}
+	defer func() {
+		// txe: canonical JSON encoding of every text component (C07 fallback-to-text rule)
+		txe := M{}
+		for _, c := range []string{"s", "strv", "gov", "errv", "fmtv"} {
+			if v, ok := d[c].(string); ok {
+				txe[c] = jsonOfString(v)
+			}
+		}
+		d["txe"] = txe
+	}()
 	if d["k"] == "other" {
 		caps, strv, gov, errv := otherCaps(opStr(d, "which"))
 		d["caps"], d["strv"], d["gov"], d["errv"], d["h"], d["w"] = caps, strv, gov, errv, 0, 0
@@ -238,7 +267,7 @@ func augmentItem(d M, x interface{}) {
 		if err != nil {
 			d["enc"] = "!ERR"
 		} else {
-			d["enc"] = string(b)
+			d["enc"] = canonJSON(b)
 		}
 	} else {
 		// encoding/json sees a Cell (a struct without exported fields)
